@@ -404,3 +404,120 @@ return (a, b)
     assumptions=['an empty barcode directory (glob returns nothing): the constructor only allocates its tables'],
 )
 UNITS.append(parser_state)
+
+
+# ------------------------------------------------------------------------------ parse_barcode_file: what the whitelist tables are filled with
+# "barcode-first and index-first files": the index reported for a barcode is the one on its line of the file (bounded: 2 rows).
+from pyvc import segstr as _segstr      # noqa: E402
+
+
+def file_setup(kind):
+    def setup(eng):
+        import os
+        from pyvc import externals
+        ctor_setup(eng)
+        externals.EXTRA['os.path.basename'] = lambda e, a, k, n: os.path.basename(a[0])
+        externals.EXTRA['os.path.splitext'] = lambda e, a, k, n: os.path.splitext(a[0])
+        bcs = []
+        for i in range(2):
+            b = _segstr.register_atom(eng, named(STR, 'barcode_%d' % i), ' \t\n\r\x0b\x0c0123456789')
+            eng.assume(z3.Length(b.z) == 3)
+            for j in range(3):
+                eng.assume(z3.Or([z3.SubString(b.z, j, 1) == z3.StringVal(c) for c in 'ACGTN']))
+            bcs.append(b)
+        d = named(INT, 'index_0')
+        eng.assume(z3.And(d.z >= 0, d.z <= 9))
+        eng.spec_env['B'] = bcs
+        eng.spec_env['D'] = d
+        dpart = _segstr.parts_of(eng.to_str(d))
+        if kind == 'one_column':
+            lines = [[bcs[0], '\n'], [' ', bcs[1], ' \n']]
+        elif kind == 'barcode_first':
+            lines = [[bcs[0], '\t'] + dpart + ['\n'], [bcs[1], ' 12\n']]
+        elif kind == 'index_first':
+            lines = [dpart + ['\t', bcs[0], '\n'], ['12 ', bcs[1], '\n']]
+        elif kind == 'named_index_first':
+            lines = [['cell_a\t', bcs[0], '\n'], ['cell_b\t', bcs[1], '\n']]
+        else:
+            lines = [[bcs[0], '\t1\n'], [bcs[1], '\t2\textra\n']]
+        fh = Obj('TextFile', {'lines': [_segstr.build(l) for l in lines]})
+        fh.vc_immutable = True
+        stubs.STUBS['TextFile'] = {'methods': {'__enter__': lambda e, o: o, '__exit__': lambda e, o, *a: None,
+                                               '__iter__': lambda e, o: list(o.attrs['lines'])}, 'props': {}, 'setters': {}}
+        eng.spec_env['open'] = Builtin('open', lambda e, a, k, n: fh)
+    return setup
+
+
+def file_replay(kind):
+    def replay(inputs, clause):
+        """the counter-model's two rows written to a real file in a scratch barcode directory, parsed by the real BarcodeParser;
+        expected table computed from the rows"""
+        import os
+        import shutil
+        import tempfile
+        from pyvc.contract import import_real
+        BP = import_real(FP, 'BarcodeParser')
+        g = inputs.get('ghost') or {}
+        b0, b1 = [str(x) for x in (g.get('B') or ['ACG', 'TTN'])]
+        d0 = int(g.get('D') or 0)
+        text, want, err = {
+            'one_column': ('%s\n %s \n' % (b0, b1), [(b0, 1), (b1, 2)], None),
+            'barcode_first': ('%s\t%d\n%s 12\n' % (b0, d0, b1), [(b0, d0), (b1, 12)], None),
+            'index_first': ('%d\t%s\n12 %s\n' % (d0, b0, b1), [(b0, d0), (b1, 12)], None),
+            'named_index_first': ('cell_a\t%s\ncell_b\t%s\n' % (b0, b1), [(b0, 'cell_a'), (b1, 'cell_b')], None),
+            'three_column': ('%s\t1\n%s\t2\textra\n' % (b0, b1), None, ValueError),
+        }[kind]
+        d = tempfile.mkdtemp(prefix='c03_')
+        try:
+            with open(os.path.join(d, 'wl.bc'), 'w') as f:
+                f.write(text)
+            try:
+                table = {k: dict(v) for k, v in BP(d, hammingDistanceExpansion=0).barcodes.items()}
+                obs = {'outcome': 'return', 'value': {k: {kk: vv for kk, vv in v.items()} for k, v in table.items()}, 'file': text}
+                ok = err is None and table == {'wl': dict(want)} and all(type(table['wl'][k]) is type(v) for k, v in dict(want).items())
+            except Exception as e:      # noqa: BLE001
+                obs = {'outcome': 'raise', 'exception': type(e).__name__, 'message': str(e)[:200], 'file': text}
+                ok = err is not None and isinstance(e, err)
+            if not ok:
+                return {'status': 'confirmed', 'observed': obs, 'failed': [{'clause': clause}]}
+            return {'status': 'not-reproduced', 'observed': obs}
+        finally:
+            shutil.rmtree(d, ignore_errors=True)
+    return replay
+
+
+def file_unit(kind, ensures, raises=None):
+    u = _file_unit(kind, ensures, raises)
+    u.replay = file_replay(kind)
+    return u
+
+
+def _file_unit(kind, ensures, raises=None):
+    return Contract(
+        PROP, FP + '::BarcodeParser.parse_barcode_file', name='parse_barcode_file[%s file, 2 rows]' % kind,
+        harness='''
+p = BarcodeParser(hammingDistanceExpansion=0)
+p.parse_barcode_file('/pkg/barcodes/wl.bc')
+return p.barcodes
+''',
+        params={}, setup=file_setup(kind), ensures=ensures, raises=raises or {},
+        bounded='a whitelist file of 2 rows: barcodes of 3 symbolic letters over ACGTN (equal or different), first index a symbolic '
+                'digit, second index 12 (or names)',
+        assumptions=['text file iteration yields the lines (A4); an empty barcode directory at construction'],
+    )
+
+
+def _maps(first, second):
+    return ('any(k == B[1] for k in result["wl"]) and all(implies(k == B[1], v == %s) for k, v in result["wl"].items()) and '
+            'any(k == B[0] for k in result["wl"]) and all(implies(k == B[0] and B[0] != B[1], v == %s) for k, v in result["wl"].items())'
+            % (second, first))
+
+
+_ONE = 'len(result["wl"]) == (1 if B[0] == B[1] else 2) and len(result) == 1'
+UNITS += [
+    file_unit('one_column', {'index_is_the_line_number': _maps('1', '2'), 'one_entry_per_barcode': _ONE}),
+    file_unit('barcode_first', {'index_is_the_second_column_as_integer': _maps('D', '12'), 'one_entry_per_barcode': _ONE}),
+    file_unit('index_first', {'index_is_the_first_column_as_integer': _maps('D', '12'), 'one_entry_per_barcode': _ONE}),
+    file_unit('named_index_first', {'index_is_the_name_in_the_first_column': _maps('"cell_a"', '"cell_b"'), 'one_entry_per_barcode': _ONE}),
+    file_unit('three_column', {'refused': 'False'}, raises={'ValueError': 'True'}),
+]
